@@ -85,6 +85,7 @@ type lsys struct {
 	cons  []lin
 	seen  map[lterm]bool
 	queue []lterm
+	inPhi bool // guard against re-entering the phi bound while it is being derived
 }
 
 func (s *lsys) le(a, b lin) { s.cons = append(s.cons, a.minus(b)); s.note(a); s.note(b) } // a <= b
@@ -173,6 +174,13 @@ func lenOf(x ssa.Value, depth int) lin {
 		return hi
 	case *ssa.MakeSlice:
 		return linOf(s.Len, depth+1)
+	case *ssa.Call:
+		// len(append(a, b...)) = len(a) + len(b)
+		if bi, ok := s.Call.Value.(*ssa.Builtin); ok && bi.Name() == "append" && len(s.Call.Args) == 2 {
+			if _, isSlice := s.Call.Args[1].Type().Underlying().(*types.Slice); isSlice || isStringOrBytes(s.Call.Args[1].Type()) {
+				return lenOf(s.Call.Args[0], depth+1).plus(lenOf(s.Call.Args[1], depth+1))
+			}
+		}
 	case *ssa.ChangeType:
 		return lenOf(s.X, depth+1)
 	case *ssa.Convert:
@@ -188,6 +196,10 @@ func lenOf(x ssa.Value, depth int) lin {
 	if u, ok := x.(*ssa.UnOp); ok && u.Op == token.MUL {
 		if g, ok := u.X.(*ssa.Global); ok && frozenGlobal(g) {
 			return linTerm(lterm{v: g, isLen: true})
+		}
+		// two loads of the same field of the same object, in a function that never stores that field, are equal
+		if c := canonFieldLoad(u); c != nil {
+			return linTerm(lterm{v: c, isLen: true})
 		}
 	}
 	return linTerm(lterm{v: x, isLen: true})
@@ -236,6 +248,28 @@ var indexFuncs = map[string]bool{
 func (s *lsys) termFacts(t lterm) {
 	if t.isLen {
 		s.le(linConst(0), linTerm(t))
+		// len(phi(a, b)) >= K when every operand provably has at least K elements (small K): e.g.
+		// `if !hasPrefix(p) { p = append(prefix, p...) }` keeps len(p) >= len(prefix)
+		if ph, ok := t.v.(*ssa.Phi); ok && !s.inPhi {
+			s.inPhi = true
+			for k := int64(4); k >= 1; k-- {
+				all := true
+				for _, e := range ph.Edges {
+					if e == ssa.Value(ph) {
+						continue
+					}
+					if !s.entails(linConst(k), lenOf(e, 0)) {
+						all = false
+						break
+					}
+				}
+				if all {
+					s.le(linConst(k), linTerm(t))
+					break
+				}
+			}
+			s.inPhi = false
+		}
 		return
 	}
 	if t.gen != 0 {
@@ -417,7 +451,7 @@ func sliceBounds(sl *ssa.Slice) (lo, hi, n lin) {
 // entails reports whether the system implies a <= b.
 func (s *lsys) entails(a, b lin) bool {
 	// refute: a >= b+1  <=>  b + 1 - a <= 0
-	t := &lsys{seen: map[lterm]bool{}}
+	t := &lsys{seen: map[lterm]bool{}, inPhi: s.inPhi}
 	for k := range s.seen {
 		t.seen[k] = true
 	}
@@ -798,4 +832,38 @@ func (s *lsys) provesNonNeg(l lin) bool {
 	// refute l <= -1  <=>  l + 1 <= 0
 	cons = append(cons, l.plusConst(1))
 	return infeasible(cons)
+}
+
+// canonFieldLoad: for a load `*(&base.f)` in a function that contains no store to field f (of any object) and
+// hands base to no call in between, the first such load (same base value, same field) in the function — a
+// canonical representative, so that `len(r.Data)` written twice is one term. nil if not applicable.
+func canonFieldLoad(u *ssa.UnOp) ssa.Value {
+	fa, ok := u.X.(*ssa.FieldAddr)
+	if !ok {
+		return nil
+	}
+	fn := u.Parent()
+	if fn == nil {
+		return nil
+	}
+	var first ssa.Value
+	stored := false
+	for _, b := range fn.Blocks {
+		for _, in := range b.Instrs {
+			switch x := in.(type) {
+			case *ssa.Store:
+				if fa2, ok := x.Addr.(*ssa.FieldAddr); ok && fa2.Field == fa.Field && types.Identical(fa2.X.Type(), fa.X.Type()) {
+					stored = true
+				}
+			case *ssa.UnOp:
+				if fa2, ok := x.X.(*ssa.FieldAddr); ok && x.Op == token.MUL && fa2.X == fa.X && fa2.Field == fa.Field && first == nil {
+					first = x
+				}
+			}
+		}
+	}
+	if stored || first == nil {
+		return nil
+	}
+	return first
 }
